@@ -294,6 +294,15 @@ func (t *Taint) isVerdictValue(v ssa.Value, depth int) bool {
 		if declassFns[cal.String()] {
 			return true
 		}
+		// ConstantTimeByteEq / ConstantTimeEq of the OR of *all* bytes of a slice with zero is the same verdict as
+		// ConstantTimeCompare of the slice with a zero string
+		if cs := cal.String(); (cs == "crypto/subtle.ConstantTimeByteEq" || cs == "crypto/subtle.ConstantTimeEq") && len(x.Call.Args) == 2 {
+			for i := 0; i < 2; i++ {
+				if c, ok := x.Call.Args[1-i].(*ssa.Const); ok && c.Value != nil && c.Value.ExactString() == "0" && isOrFoldOfWholeSlice(x.Call.Args[i]) {
+					return true
+				}
+			}
+		}
 		if len(cal.Blocks) == 0 && t.asmResult[cal.Name()] == "verdict" && isRepoFunc(cal) {
 			return true
 		}
@@ -1142,4 +1151,105 @@ func valName(v ssa.Value) string {
 		return v.Name()
 	}
 	return "?"
+}
+
+// isOrFoldOfWholeSlice: v is acc after "acc := 0; for i := 0; i < len(s); i++ { acc |= s[i] }" (or the range form): a
+// loop-carried accumulator that starts at zero, is OR-ed with s[I] in every iteration, where the index I starts at 0,
+// advances by one and the loop runs while I < len(s).
+func isOrFoldOfWholeSlice(v ssa.Value) bool {
+	strip := func(v ssa.Value) ssa.Value {
+		for {
+			switch x := v.(type) {
+			case *ssa.Convert:
+				v = x.X
+			case *ssa.ChangeType:
+				v = x.X
+			default:
+				return v
+			}
+		}
+	}
+	acc, ok := strip(v).(*ssa.Phi)
+	if !ok || len(acc.Edges) != 2 {
+		return false
+	}
+	var step *ssa.BinOp
+	zero := false
+	for _, e := range acc.Edges {
+		if c, ok := e.(*ssa.Const); ok && c.Value != nil && c.Value.ExactString() == "0" {
+			zero = true
+		} else if b, ok := strip(e).(*ssa.BinOp); ok && b.Op == token.OR {
+			step = b
+		}
+	}
+	if !zero || step == nil {
+		return false
+	}
+	var elem ssa.Value
+	switch {
+	case strip(step.X) == ssa.Value(acc):
+		elem = step.Y
+	case strip(step.Y) == ssa.Value(acc):
+		elem = step.X
+	default:
+		return false
+	}
+	load, ok := strip(elem).(*ssa.UnOp)
+	if !ok || load.Op != token.MUL {
+		return false
+	}
+	ia, ok := load.X.(*ssa.IndexAddr)
+	if !ok {
+		return false
+	}
+	if _, isSlice := ia.X.Type().Underlying().(*types.Slice); !isSlice {
+		return false
+	}
+	// the index: phi(0, I+1), or phi(-1, I) + 1
+	idx := ia.Index
+	startsAtZero := false
+	if ph, ok := idx.(*ssa.Phi); ok && len(ph.Edges) == 2 && ph.Block() == acc.Block() {
+		for i, e := range ph.Edges {
+			c, isC := e.(*ssa.Const)
+			inc, isInc := ph.Edges[1-i].(*ssa.BinOp)
+			if isC && c.Value != nil && c.Value.ExactString() == "0" && isInc && inc.Op == token.ADD && inc.X == ssa.Value(ph) {
+				if k, ok := inc.Y.(*ssa.Const); ok && k.Value != nil && k.Value.ExactString() == "1" {
+					startsAtZero = true
+				}
+			}
+		}
+	} else if inc, ok := idx.(*ssa.BinOp); ok && inc.Op == token.ADD {
+		if ph, ok := inc.X.(*ssa.Phi); ok && len(ph.Edges) == 2 && ph.Block() == acc.Block() {
+			if k, ok := inc.Y.(*ssa.Const); ok && k.Value != nil && k.Value.ExactString() == "1" {
+				for i, e := range ph.Edges {
+					if c, isC := e.(*ssa.Const); isC && c.Value != nil && c.Value.ExactString() == "-1" && ph.Edges[1-i] == ssa.Value(inc) {
+						startsAtZero = true
+					}
+				}
+			}
+		}
+	}
+	if !startsAtZero {
+		return false
+	}
+	// the loop runs while I < len(s): the header ends in that test and the accumulation is on its true side
+	hdr := acc.Block()
+	iff, ok := hdr.Instrs[len(hdr.Instrs)-1].(*ssa.If)
+	if !ok {
+		return false
+	}
+	cond, ok := iff.Cond.(*ssa.BinOp)
+	if !ok || cond.Op != token.LSS || cond.X != idx {
+		return false
+	}
+	ln, ok := cond.Y.(*ssa.Call)
+	if !ok {
+		return false
+	}
+	if b, ok := ln.Call.Value.(*ssa.Builtin); !ok || b.Name() != "len" || len(ln.Call.Args) != 1 || ln.Call.Args[0] != ia.X {
+		return false
+	}
+	// the accumulation and the load happen in the loop body (dominated by the true edge), in every iteration
+	body := hdr.Succs[0]
+	return step.Block() == body && load.Block() == body && len(body.Succs) == 1 && body.Succs[0] == hdr
 }
